@@ -1,16 +1,20 @@
 #!/bin/sh
-# usage: trymutant2.sh <patch.diff> <prop> — like trymutant.sh but on a scratch worktree (/tmp/evalrepo), leaving /repo and /verif/evidence alone
+# usage: trymutant2.sh <patch.diff> <prop> [run-regexp]
+# like trymutant.sh but on a scratch worktree ($EVALREPO, default /tmp/evalrepo, created at /repo's HEAD),
+# leaving /repo and /verif/evidence alone. $GOSYM = engine binary (default /tmp/gosym_eval).
 export GOFLAGS=-mod=mod GOPROXY=off GOSUMDB=off GOTOOLCHAIN=local
-patch="$1"; p="$2"
-[ -d /tmp/evalrepo ] || git -C /repo worktree add -q --detach /tmp/evalrepo HEAD
-cd /tmp/evalrepo || exit 2
+patch="$1"; p="$2"; run="${3:-.}"
+R=${EVALREPO:-/tmp/evalrepo}; G=${GOSYM:-/tmp/gosym_eval}; tag=$(basename $R)
+[ -d $R ] || git -C /repo worktree add -q --detach $R HEAD
+cd $R || exit 2
 git checkout -q -- . ; git clean -fdq
+git checkout -q --detach $(git -C /repo rev-parse HEAD)
 git apply "$patch" || { echo "patch does not apply"; exit 2; }
 s=$(date +%s)
-GOSYM_REPLAYDIR=/tmp/evalreplay timeout 3000 /tmp/gosym_eval -repo /tmp/evalrepo -prop $p -tier quick -evidence /tmp/evalev_$p.json > /tmp/mutant2_$p.log 2>&1
+GOSYM_REPLAYDIR=/tmp/evalreplay_$tag timeout 3000 $G -repo $R -prop $p -run "$run" -tier ${TIER:-quick} -evidence /tmp/evalev_${tag}_$p.json > /tmp/mutant2_${tag}_$p.log 2>&1
 rc=$?
 e=$(date +%s)
-echo "$p exit=$rc $((e-s))s viol=$(grep -c '^VIOLATION' /tmp/mutant2_$p.log) inconcl=$(grep -c '^INCONCLUSIVE' /tmp/mutant2_$p.log)"
-grep -m2 'violation:' /tmp/mutant2_$p.log | cut -c1-220
-grep -m2 'INCONCLUSIVE' /tmp/mutant2_$p.log | cut -c1-220
+echo "$p exit=$rc $((e-s))s viol=$(grep -c '^VIOLATION' /tmp/mutant2_${tag}_$p.log) inconcl=$(grep -c '^INCONCLUSIVE' /tmp/mutant2_${tag}_$p.log)"
+grep -m3 'violation:' /tmp/mutant2_${tag}_$p.log | cut -c1-260
+grep -m2 'INCONCLUSIVE' /tmp/mutant2_${tag}_$p.log | cut -c1-260
 git checkout -q -- .
